@@ -1143,11 +1143,14 @@ class Wtp:
         """
         self.db_conn.execute(query_str)
         self.db_conn.commit()
+        self.get_page.cache_clear()
 
     def set_template_pre_expand(self, name: str) -> None:
         self.db_conn.execute(
             "UPDATE pages SET need_pre_expand = 1 WHERE title = ?", (name,)
         )
+        # lookups must not go on reporting the page without the flag
+        self.get_page.cache_clear()
 
     def start_page(self, title: str) -> None:
         """Starts a new page for expanding Wikitext.  This saves the title
